@@ -21,11 +21,11 @@ PROFILES = {
     'late':      dict(cons=dict(task=1, opt=0, fol=0, res=8), p_opt=0.2, p_copt=0.05, resources=1.0, p_bad=0.0, ncons=(1, 3), p_late=0.8,
                       rescons=['CUnavailable', 'CWorkLoad', 'CInterrupted']),
     'mixed':     dict(cons=dict(task=4, opt=2, fol=2, res=4), p_opt=0.35, p_copt=0.2, resources=0.8, p_bad=0.0, ncons=(1, 7)),
-    'indicators': dict(cons=dict(task=3, opt=1, fol=0, res=1, buf=1), p_opt=0.35, p_copt=0.05, resources=0.9, p_bad=0.0, ncons=(0, 4),
+    'indicators': dict(dues=[None, 6, 9, 15, 25], horizons=[None, None, 7, 20, 30, 30, 40, 200], cons=dict(task=3, opt=1, fol=0, res=1, buf=1), p_opt=0.35, p_copt=0.05, resources=0.9, p_bad=0.0, ncons=(0, 4),
                        p_buf=0.4, n_ind=(1, 4), p_obj=0.3),
-    'buffers':   dict(cons=dict(task=2, opt=1, fol=0, res=0, buf=6), p_opt=0.3, p_copt=0.0, resources=0.2, p_bad=0.0, ncons=(1, 6),
+    'buffers':   dict(horizons=[None, None, 7, 20, 30, 30, 40, 200], cons=dict(task=2, opt=1, fol=0, res=0, buf=6), p_opt=0.3, p_copt=0.0, resources=0.2, p_bad=0.0, ncons=(1, 6),
                       p_buf=1.0, n_ind=(0, 2), p_obj=0.2),
-    'objectives': dict(cons=dict(task=3, opt=1, fol=0, res=1, buf=1), p_opt=0.35, p_copt=0.05, resources=0.8, p_bad=0.0, ncons=(0, 4),
+    'objectives': dict(horizons=[None, None, 7, 20, 30, 30, 40, 200], cons=dict(task=3, opt=1, fol=0, res=1, buf=1), p_opt=0.35, p_copt=0.05, resources=0.8, p_bad=0.0, ncons=(0, 4),
                        p_buf=0.3, n_ind=(0, 2), p_obj=1.0),
     'malformed': dict(cons=dict(task=4, opt=3, fol=2, res=4), p_opt=0.35, p_copt=0.3, resources=0.9, p_bad=1.0, ncons=(1, 5)),
 }
@@ -70,7 +70,7 @@ class Gen:
         self.inds = {}       # id -> kind
         self.nexti = 1
         self.nextc = 1
-        hz = r.choice([None, None, 1, 7, 10, 20, 20, 30, 30, 200, 200])
+        hz = r.choice(self.pf.get('horizons', [None, None, 1, 7, 10, 20, 20, 30, 30, 200, 200]))
         self.horizon = hz
         self.ops.append(('ONewProblem', optZ(hz)))
         nt = r.randint(1, 6 if self.big else 5)
@@ -130,11 +130,17 @@ class Gen:
         objs = [('ResW', w) for w in self.workers] + [('ResC', N(c)) for c in self.cumuls]
         return self.r.choice(objs) if objs else None
 
-    def task_subset(self):
+    def task_subset(self, need_due=False):
         r = self.r
-        if r.random() < 0.5:
-            return None
         ts = list(self.tasks)
+        if need_due and r.random() < 0.9:
+            ts = [t for t in ts if self.tasks[t].get('due') is not None]
+            if len(ts) == len(self.tasks) and r.random() < 0.5:
+                return None
+            if not ts:
+                return Some([])
+        elif r.random() < 0.5:
+            return None
         return Some([N(x) for x in r.sample(ts, r.randint(1, len(ts)))])
 
     def ind_term(self):
@@ -164,7 +170,7 @@ class Gen:
         elif k in ('IUtilization', 'INbTasks', 'IIdle'):
             e = (k, self.any_resobj())
         elif k in ('ITardiness', 'IEarliness', 'INbTardy', 'IMaxLateness'):
-            e = (k, self.task_subset())
+            e = (k, self.task_subset(need_due=True))
         elif k == 'ICost':
             objs = [('ResW', w) for w in self.workers] + [('ResC', N(c)) for c in self.cumuls]
             e = (k, r.sample(objs, r.randint(1, len(objs))))
@@ -175,10 +181,10 @@ class Gen:
         self.ops.append(('ONewIndicator', N(iid), e, bounds))
         self.inds[iid] = k
         # sometimes constrain it
-        if r.random() < 0.25:
+        if r.random() < 0.15:
             cid = self.nextc
             self.nextc += 1
-            if r.random() < 0.5:
+            if r.random() < 0.3:
                 ce = ('CIndTarget', N(iid), Z(r.choice([0, 1, 2, 5, 10])))
             else:
                 lo = r.choice([None, 0, 1])
@@ -240,11 +246,11 @@ class Gen:
             kind = ('KVar', Z(mn), optZ(mx), None if al is None else Some([Z(a) for a in al]))
         opt = r.random() < self.pf['p_opt']
         rel = r.choice([None, None, None, 0, 2, 5])
-        due = r.choice([None, None, None, None, 6, 9, 15, 25])
+        due = r.choice(self.pf.get('dues', [None, None, None, None, 6, 9, 15, 25]))
         dl = r.random() < 0.5
         work = r.choice([0, 0, 0, 0, 2, 4])
         self.ops.append(('ONewTask', N(i), kind, opt, Z(work), optZ(rel), optZ(due), dl, Z(r.choice([0, 1, 1, 2, 5]))))
-        self.tasks[i] = dict(kind=kind[0], opt=opt)
+        self.tasks[i] = dict(kind=kind[0], opt=opt, due=due)
 
     def assignments(self, n):
         r = self.r
